@@ -64,6 +64,7 @@ theorem step_conns_keys (s : Hub) (op : HubOp) (h : KeysNodup s) : KeysNodup (hu
     simp only [hubStep]; split
     · simp only [broadcast_conns, retain_conns]; split <;> exact h
     · exact h
+  | lNotify n => simp only [hubStep, broadcast_conns, retain_conns]; exact h
   | register id => simp only [hubStep]; split <;> exact h
   | dead c id =>
     simp only [hubStep]; split
@@ -211,6 +212,7 @@ theorem retained_order (s : Hub) (op : HubOp) :
       · exact ⟨fun e => e ≠ .lAdd n, [.lRemove n, .lRemove n], by simp [List.filter_append]⟩
       · exact app _ [.lRemove n, .lRemove n] (by simp)
     · exact same _ rfl
+  | lNotify n => simp only [hubStep]; exact app _ [.lAdd n] (by simp)
   | register id => simp only [hubStep]; split <;> exact same _ (by simp)
   | dead c id =>
     simp only [hubStep]; split
@@ -230,7 +232,17 @@ theorem retained_order (s : Hub) (op : HubOp) :
 /-- every retained add event names a listener that still exists -/
 def ListenerInv (s : Hub) : Prop := ∀ n, Ev.lAdd n ∈ s.retained → n ∈ s.listeners
 
-theorem step_listenerInv (s : Hub) (op : HubOp) (h : ListenerInv s) : ListenerInv (hubStep s op) := by
+/-- a status report names a listener that exists at that moment -/
+def notifyOk (s : Hub) : HubOp → Prop
+  | .lNotify n => n ∈ s.listeners
+  | _ => True
+
+/-- histories in which every status report arrives while its listener exists -/
+def WellNotified : Hub → List HubOp → Prop
+  | _, [] => True
+  | s, op :: ops => notifyOk s op ∧ WellNotified (hubStep s op) ops
+
+theorem step_listenerInv (s : Hub) (op : HubOp) (h : ListenerInv s) (hn : notifyOk s op) : ListenerInv (hubStep s op) := by
   have same : ∀ t : Hub, (∀ n, Ev.lAdd n ∈ t.retained → Ev.lAdd n ∈ s.retained) → (∀ n, n ∈ s.listeners → n ∈ t.listeners) → ListenerInv t :=
     fun t hr hl n hn => hl n (h n (hr n hn))
   cases op with
@@ -268,6 +280,13 @@ theorem step_listenerInv (s : Hub) (op : HubOp) (h : ListenerInv s) : ListenerIn
         exact ⟨h k hk1, hkn⟩
       · exact same _ (fun k x => by simpa using x) (fun _ x => by simpa using x)
     · exact h
+  | lNotify n =>
+    simp only [hubStep]
+    intro k hk
+    simp only [broadcast_retained, retain_retained, List.mem_append, List.mem_singleton, Ev.lAdd.injEq, broadcast_listeners, retain_listeners] at hk ⊢
+    rcases hk with hk | rfl
+    · exact h k hk
+    · exact hn
   | register id => simp only [hubStep]; split <;> exact same _ (fun n x => by simpa using x) (fun _ x => by simpa using x)
   | dead c id =>
     simp only [hubStep]; split
@@ -282,19 +301,24 @@ theorem step_listenerInv (s : Hub) (op : HubOp) (h : ListenerInv s) : ListenerIn
     · exact same _ (fun n x => by simpa using x) (fun _ x => by simpa using x)
     · exact h
 
-theorem run_listenerInv (ops : List HubOp) : ListenerInv (hubRun ops) := by
-  suffices h : ∀ s, ListenerInv s → ListenerInv (ops.foldl hubStep s) from h {} (by intro n hn; simp at hn)
+theorem foldl_listenerInv (ops : List HubOp) : ∀ s, ListenerInv s → WellNotified s ops → ListenerInv (ops.foldl hubStep s) := by
   induction ops with
-  | nil => intro s h; exact h
-  | cons op ops ih => intro s h; exact ih _ (step_listenerInv s op h)
+  | nil => intro s h _; exact h
+  | cons op ops ih =>
+    intro s h hw
+    simp only [List.foldl_cons]
+    exact ih (hubStep s op) (step_listenerInv s op h hw.1) hw.2
+
+theorem run_listenerInv (ops : List HubOp) (hw : WellNotified {} ops) : ListenerInv (hubRun ops) :=
+  foldl_listenerInv ops {} (by intro n hn; simp at hn) hw
 
 /-- For every history: once an operator has removed a listener, no add event of it is in the
     replay list any more (so no newcomer is told about it), whatever was recorded before. -/
-theorem removed_listener_not_replayed (ops : List HubOp) (c : Nat) (n : String) (u : String)
+theorem removed_listener_not_replayed (ops : List HubOp) (hw : WellNotified {} ops) (c : Nat) (n : String) (u : String)
     (hc : (hubRun ops).stateOf c = some (.authed u)) :
     Ev.lAdd n ∉ (hubStep (hubRun ops) (.lRemove c n)).retained := by
   intro hmem
-  have inv := step_listenerInv _ (.lRemove c n) (run_listenerInv ops) n hmem
+  have inv := step_listenerInv _ (.lRemove c n) (run_listenerInv ops hw) trivial n hmem
   simp only [hubStep, hc] at inv
   split at inv
   · simp at inv
@@ -302,6 +326,18 @@ theorem removed_listener_not_replayed (ops : List HubOp) (c : Nat) (n : String) 
     simp only [broadcast_listeners, retain_listeners] at inv
     simp at hno
     exact hno inv
+
+/- the hypothesis is met by a history with an add, two status reports and more (non-vacuity) … -/
+example : WellNotified {} [.connect 0, .login 0 "a", .lAdd 0 "L", .lNotify "L", .lNotify "L", .record "m" false none] := by
+  simp [WellNotified, notifyOk, hubStep, Hub.stateOf, Hub.setState, Hub.emitMany, Hub.retain, Hub.broadcast, Hub.emit,
+    Hub.authedIds, Hub.activeSessions, HConn.isAuthed]
+example : Ev.lAdd "L" ∉ (hubRun [.connect 0, .login 0 "a", .lAdd 0 "L", .lNotify "L", .lNotify "L", .lRemove 0 "L"]).retained := by
+  decide
+
+/- … and it is needed: a status report for a listener that does not exist (any more) is recorded like any
+   other and nothing ever prunes it.  The implementation does the same (ListenerStartNotify records
+   unconditionally, ListenerRemove finds no listener of that name); only a third-party service can cause it. -/
+example : Ev.lAdd "L" ∈ (hubRun [.connect 0, .login 0 "a", .lNotify "L", .lRemove 0 "L"]).retained := by decide
 
 /-! ### a dead operator changes nothing for the others -/
 
@@ -373,6 +409,7 @@ theorem step_sameBut {d : Nat} {s t : Hub} (h : SameBut d s t) (op : HubOp) : Sa
       · simp only [hc, ↓reduceIte]
         exact (h1.retain _).broadcast _ _
     · exact h
+  | lNotify n => simp only [hubStep]; exact (h.retain _).broadcast _ _
   | register id =>
     simp only [hubStep, h.sessions]
     by_cases hc : (s.sessions.any fun x => x.1 == id) = true
